@@ -722,7 +722,7 @@ class C10(SimCheck):
                "dt": 1024, "dtS": fbits(1.0), "defaultSpeed": fbits(10.0), "refGeo": [fbits(0.0)] * 3,
                "initPos": [[fbits(float(i)), fbits(0.0), fbits(0.0)] for i in range(nodes)], "draws": []}
         return {"kind": "freq", "cfg": cfg, "table": [], "drive": {"mode": "start"}, "seed": seed, "rate": rate,
-                "rounds": rounds, "label": f"freq/{rate}/{seed}", "profile": {}}
+                "rounds": rounds, "label": f"freq/{rate}/{seed}", "profile": {}, "hardCap": 5_000_000}
 
     def generate(self, seed, tier):
         yield from super().generate(seed, tier)
